@@ -10,10 +10,12 @@ class C04(Property):
     theorem_modules = ['RosuModel.Props.C04All', 'RosuModel.Props.C04Ieee', 'RosuModel.Props.C04DecodedIeee', 'RosuModel.Props.C04DecodedObjects', 'RosuModel.Props.C04DecodedObjectsToy',
                        'RosuModel.Props.C04DecodedObjectsIeee', ('RosuModel.Lemmas.DecodedObjInv', 'Rosu.DecodedObj'),
                        'RosuModel.Props.C04DecodedObjectsIeee2', 'RosuModel.Props.C04DecodedPaths', 'RosuModel.Props.C04DecodedPathsIeee', ('RosuModel.Lemmas.DecodedPathInv', 'Rosu.DecodedPath'),
-                       'RosuModel.Props.C04DecodedTiming', 'RosuModel.Props.C04DecodedTimingToy', 'RosuModel.Props.C04DecodedTimingIeee']   # files whose top-level theorems are all audited
+                       'RosuModel.Props.C04DecodedTiming', 'RosuModel.Props.C04DecodedTimingToy', 'RosuModel.Props.C04DecodedTimingIeee', 'RosuModel.Props.C04DecodedTimingEvents']   # files whose top-level theorems are all audited
     namespace = "Rosu.C04"
     design_ref = "5.4"
     required_theorems = [
+        "collect_mono", "sliderEventList_events", "collectObject_slider_times", "sliderTimes_of_nodeTimes", "nodeTime_inLimit_float", "sliderTimes_osu_catch_float",
+        "collectedTimes_all_modes_float", "decoded_repTimingMap_ieee_ends", "timing_lines_accepted_decoded_ieee_ends", "ev_accepted", "evCatch_accepted", "evOver_not_collectedTimes",
         "ctrlLaws_float", "duration_drifts_float", "end_time_over_limit_float", "durLawsOn_float", "hitobjects_block_accepted_decoded_ieee", "decoded_spinners_representable_ieee_int",
         "decoded_path_shape", "decoded_path_shape_iff", "decoded_sliders_representable", "hitobjects_block_accepted_decoded_f17", "f17_needed", "pathLaws_ieee", "decoded_path_shape_ieee",
         "decoded_stored_points_rep", "decoded_repTimingMap_partial", "timing_lines_accepted_decoded", "encoded_file_accepted_decoded", "decoded_repTimingMap_statement_false",
@@ -38,6 +40,13 @@ class C04(Property):
                          "constFactsB_float", "constFacts_float", "parser_calls_keep_decoded_inv_float", "decoded_inv_float", "decoded_map_inv_float",
                          "decoded_records_representable_float"]
     partial_theorems = {
+        "collectedTimes_all_modes_float / timing_lines_accepted_decoded_ieee_ends": "Props/C04DecodedTimingEvents.lean (sixth session, wave 6): the residual `CollectedTimesInLimit` of the timing clause is DERIVED from "
+            "conditions on the decoded objects' computed end times, in all four modes on IEEE doubles: sliderEventList_events (no fuel hypothesis) + collectObject_slider_times (only head / repeat / tail events "
+            "contribute sample times, each a NodeTime of the slider) + nodeTime_inLimit_float (head ≤ every span end ≤ bound) give sliderTimes_osu_catch_float; spinners / holds through end_time_lower_float; hence "
+            "collectedTimes_all_modes_float, decoded_repTimingMap_ieee_ends and timing_lines_accepted_decoded_ieee_ends (the written [TimingPoints] block of a decoded map is accepted line for line with exactly the "
+            "values written) under `ObjEndsInLimit m` alone. PARTIAL: for sliders the hypothesis asks `0 ≤ D` for the span duration and finite-and-≤-limit (not merely ≤ limit) for the tail and each span end; the "
+            "upper-bounds-only form is kept unproved as `sliderTimes_upper_statement` (missing: non-negativity of the curve length as a theorem; no counterexample known). evOver_not_collectedTimes: the residual is "
+            "needed (a slider at 2147483000 decodes and its tail exceeds the parse limit — the F26 predicate), kernel-checked on doubles",
         "record_lines_accepted_editor / _difficulty / _general / _events, record_blocks_accepted_and_recovered":
             "law-dependent: proved for every number codec satisfying CodecLaws (+ IntPrintLaw for AudioLeadIn), shown satisfiable by Lemmas/ToyCodec.lean; CodecLaws is now also a theorem "
             "for the model's IEEE codec (C02: parseBits_printBits_f64/_f32, printBits_clean) and, since Lean 4.33's Float is a structure over the logical model Float.Model, for the driver's Float / Float32 "
